@@ -146,6 +146,9 @@ func CheckTimeValidity(availTimeS, nowS, timeShiftBufferDepthS, availabilityTime
 	if availabilityTimeOffsetS > 0 {
 		availTimeS -= availabilityTimeOffsetS
 	}
+	if math.Abs(availTimeS-nowS) < 1e-6 {
+		availTimeS = nowS // floating-point noise must not make a segment "too early by 0ms"
+	}
 	if availTimeS > nowS {
 		return newErrTooEarly(int(math.Round((availTimeS - nowS) * 1000.0)))
 	}
